@@ -322,6 +322,28 @@ def _check_clauses(ctx, label, deriv, specs, base_vals, spot, eps):
                      f"path {n}: payoff() = {g!r}, clauses in registration order on payoff_fn()={base_vals[n]!r} give {float(w)!r}",
                      path=n, clauses=specs)
             return
+    # registering another clause under the name of the LAST clause replaces it (a parameter sweep re-registers "cap", ...);
+    # the last position is where it sits whichever way replacement is ordered
+    if specs:
+        new = {"kind": "affine", "a": 2.0, "b": 0.125}
+        last_name = "%s%d_%s" % ("mazcxbyd"[(len(specs) - 1) % 8], len(specs) - 1, specs[-1]["kind"])
+        with ctx.sut(label + "/payoff"):
+            deriv.add_clause(last_name, O.make_clause(new))
+            out2 = deriv.payoff()
+        got2 = _values(ctx, label + "/payoff", out2, N)
+        if got2 is None:
+            return
+        specs2 = list(specs[:-1]) + [new]
+        for n in range(N):
+            w, err, peak = O.apply_clauses_exact(specs2, Fr(base_vals[n]), spot[n], eps)
+            if peak > OVERFLOW_GUARD[eps]:
+                continue
+            g = got2[n]
+            if not math.isfinite(g) or abs(Fr(g) - w) > err + Fr(eps) * abs(w):
+                ctx.fail(label + "/clause-replaced",
+                         f"path {n}: after re-registering '{last_name}' payoff() = {g!r}, expected {float(w)!r} (old clause {specs[-1]})",
+                         path=n, clauses=specs2)
+                return
 
 
 def _clause_classes(ctx, specs):
